@@ -408,9 +408,11 @@ theorem append_spec {s : IndexGO α} (h : s.WF) (a : α) :
           if toInt? a = some ((pre s a).count : Int) then
             ({ (pre s a) with mutLabels := (pre s a).mutLabels ++ [a], count := (pre s a).count + 1, recache := true }, none)
           else
-            match AMap.build ((pre s a).mutLabels ++ [a]) with
-            | none => ({ (pre s a) with mutLabels := (pre s a).mutLabels ++ [a] }, some .value)
-            | some m => ({ (pre s a) with map := some m, mutLabels := (pre s a).mutLabels ++ [a], count := (pre s a).count + 1, recache := true }, none)) := by
+            match AMap.build (pre s a).mutLabels with
+            | none => ((pre s a), some .value)
+            | some m0 => match m0.add a with
+              | none => ((pre s a), some .value)
+              | some m => ({ (pre s a) with map := some m, mutLabels := (pre s a).mutLabels ++ [a], count := (pre s a).count + 1, recache := true }, none)) := by
     unfold append pre; rfl
   rw [happ]
   generalize pre s a = s1 at hwf1 hml hmap hcnt
@@ -457,8 +459,14 @@ theorem append_spec {s : IndexGO α} (h : s.WF) (a : α) :
         congr 2
         exact ofInt_toInt a _ hnext
       · rw [if_neg hnext]
-        rw [AMap.build_some_iff.mpr ⟨hnd, rfl⟩]
-        simp only
+        rw [AMap.build_some_iff.mpr ⟨hn1, rfl⟩]
+        have hadd : AMap.add (s1.mutLabels.zipIdx 0) a = some ((s1.mutLabels ++ [a]).zipIdx 0) := by
+          unfold AMap.add
+          have : ¬ (AMap.get? (s1.mutLabels.zipIdx 0) a).isSome = true := by
+            rw [AMap.get?_zipIdx_isSome]; rw [hml]; exact hmem
+          rw [if_neg this]
+          simp [List.zipIdx_append]
+        simp only [hadd]
         refine ⟨⟨hnd, by simp [hc1], ?_, by simp⟩, fun hn => absurd hn hmem, fun _ => ⟨by simp, by simp [hml]⟩⟩
         simp only
         exact AMap.build_some_iff.mpr ⟨hnd, rfl⟩
